@@ -236,13 +236,25 @@ def interpret(case, global_mod=None):
         elif op["op"] == "lookup":
             i = int(op["id"])
             try:
-                got = lib.name_of(i)
+                import numpy as _np
+                got = lib.name_of(i if k % 3 else (_np.int64(i) if i >= 0 else _np.int32(i)))     # ids read back from arrays are numpy integers
                 if not (0 <= i < len(model)) or got != model[i]:
                     raise Violation("lookup-by-id", f"{where}: get_tag_name({i}) = {got!r}, tags {model}")
             except nf_err:
                 if 0 <= i < len(model):
                     raise Violation("lookup-by-id", f"{where}: get_tag_name({i}) raised TagNotFoundError, tags {model}")
             labels.add("lookup")
+        elif op["op"] == "use":
+            # introspection in between (dir(), repr(), vars()): looking at a library does not change it
+            target = lib.lib if hasattr(lib, "lib") else lib.t
+            for fn_ in (dir, repr, lambda o: sorted(map(str, vars(o)))):
+                try:
+                    res_ = fn_(target)
+                    if isinstance(res_, list):
+                        res_.reverse()
+                except Exception as e:
+                    raise Violation("introspection-raised", f"{where}: {type(e).__name__}: {e}")
+            labels.add("introspected")
         elif op["op"] == "unknown":
             name = "ZZ_UNKNOWN_" + str(int(op.get("n", 0)) % 5)
             if name not in model:
@@ -340,7 +352,7 @@ def strategy(tier):
         "libs": st.just(2), "global": st.sampled_from(["none", "none", "fresh-module"]), "verify": st.sampled_from(["end", "sparse"]),
         "ops": st.builds(lambda tail: [{"op": "add", "lib": 0, "name": f"T{i}"} for i in range(n - 1)] + tail,
                          sized_lists(wone_of(add, add, look, unk), 0, 6))}))
-    small = _small(gk, add, look, unk)
+    small = _small(gk, add, look, wone_of(unk, st.fixed_dictionaries({"op": st.just("use"), "lib": st.integers(0, 2)})))
     return wone_of(*([small] * 14 + [long_hist]))
 
 
